@@ -342,3 +342,66 @@ pub fn fuzz_one(tape: &[u16]) -> crate::engine::Outcome {
     super::c09::Comments.run(&case, &mut ctx)?;
     Ok(())
 }
+
+
+/// `bv fmtdump C07 <seed> <n>`: deterministic dump (one hash line per program x width, through the
+/// library entry point and the wasm driver) used to compare two versions of the formatter
+/// byte for byte (differential check of formatter refactorings; see tools/fmt_diff.sh).
+pub fn dump(seed: u64, n: u32) {
+    use proptest::strategy::ValueTree;
+    use proptest::test_runner::{Config, RngAlgorithm, RngSeed, TestRng, TestRunner};
+    let mut seed_bytes = [0u8; 32];
+    seed_bytes[..8].copy_from_slice(&seed.to_le_bytes());
+    let mut runner = TestRunner::new_with_rng(Config { failure_persistence: None, rng_seed: RngSeed::Fixed(seed), ..Config::default() }, TestRng::from_seed(RngAlgorithm::ChaCha, &seed_bytes));
+    let strategies = [strategy(5, 4), strategy(2, 7), typed_strategy(), lambda_heavy_strategy()];
+    for i in 0..n {
+        let st = &strategies[(i % 4) as usize];
+        let Ok(tree) = st.new_tree(&mut runner) else { continue };
+        let c = tree.current();
+        let r = render(&c, true);
+        let Ok(stmts) = parse_c(&r.text) else {
+            println!("{} unparseable {:016x}", i, crate::engine::hash_str(&r.text));
+            continue;
+        };
+        for w in WIDTHS.iter().chain([c.width].iter()) {
+            let lib: Vec<String> = format_library(&stmts, *w).into_iter().map(|o| o.unwrap_or_default()).collect();
+            let wasm = format_wasm(&r.text, *w).unwrap_or_default();
+            println!("{} w{} {:016x} {:016x} {:016x}", i, w, crate::engine::hash_str(&r.text), crate::engine::hash_str(&lib.join("\u{1}")), crate::engine::hash_str(&wasm));
+        }
+    }
+}
+
+/// programs dominated by lambdas: curried, applied, with do-block / conditional / list bodies
+pub fn lambda_heavy_strategy() -> BoxedStrategy<Case> {
+    (prop::collection::vec(any::<u16>(), 0..120), prop::collection::vec(any::<u16>(), 0..160), prop_oneof![3 => prop::sample::select(WIDTHS.to_vec()), 1 => 1u16..130])
+        .prop_map(|(t, layout, width)| {
+            let mut tape = Tape::new(&t);
+            let n = 1 + tape.pick(3);
+            let prog = (0..n).map(|k| E::Assign(format!("f{}", k), Box::new(lambda_nest(&mut tape, 8)))).collect();
+            Case { prog, layout, width, cli: false, text: None, typed: false }
+        })
+        .boxed()
+}
+
+fn lambda_nest(t: &mut Tape, depth: usize) -> E {
+    use crate::gen_::expr::{P, bin, id, n};
+    use crate::model::prec::Op;
+    if depth == 0 || t.exhausted() {
+        return match t.pick(4) {
+            0 => id("a"),
+            1 => bin(Op::Add, id("a"), bin(Op::Mul, id("b"), n(2.0))),
+            2 => E::List(vec![id("a"), id("b"), n(3.0)]),
+            _ => E::If(Box::new(bin(Op::Gt, id("a"), n(0.0))), Box::new(id("a")), Box::new(E::Neg(Box::new(id("a"))))),
+        };
+    }
+    let d = depth - 1;
+    match t.pick(10) {
+        0 | 1 | 2 | 3 => E::Lambda(vec![P::Req(["a", "b", "c", "long_parameter_name"][t.pick(4)].into())], Box::new(lambda_nest(t, d))),
+        4 => E::Lambda(vec![P::Req("a".into()), P::Opt("b".into())], Box::new(lambda_nest(t, d))),
+        5 => E::Call(Box::new(E::Lambda(vec![P::Req("a".into())], Box::new(lambda_nest(t, d)))), vec![lambda_nest(t, d.min(1))]),
+        6 => E::Do(vec![E::Assign("t".into(), Box::new(lambda_nest(t, d.min(2))))], Box::new(lambda_nest(t, d))),
+        7 => E::List(vec![lambda_nest(t, d), lambda_nest(t, d.min(1))]),
+        8 => bin(Op::Via, id("xs"), E::Lambda(vec![P::Req("a".into())], Box::new(lambda_nest(t, d)))),
+        _ => E::If(Box::new(id("c")), Box::new(lambda_nest(t, d)), Box::new(lambda_nest(t, d.min(1)))),
+    }
+}
